@@ -101,6 +101,7 @@ func runC03(p *core.Program, r *core.Report) {
 	r.Rule("C03.countlink", "every reader loop is driven by the count the writer emitted for that repetition", 60)
 	r.Rule("C03.classified", "every lang/pack function touching a root stream is paired, reached from a pair, or listed with a reason", 8)
 	r.Rule("C03.fresh", "every pack the factory hands out is freshly allocated", 20)
+	r.Rule("C03.taghash", "LogSinkPack keeps its cached tag hash consistent with its tags (reset after every change; Write emits the recomputed hash): re-encoding is byte-identical", 2)
 	r.Rule("C03.containers", "record containers stamp Pcode/Oid/Okind/Onode on every element they return", 2)
 	r.Rule("C03.zipstatus", "doZip marks the pack ZIPPED exactly when it compresses; doUnZip decompresses exactly when marked", 1)
 	r.Rule("C03.errcheck", "a value obtained together with an error is not consumed on the err != nil branch", 2)
@@ -136,6 +137,7 @@ func runC03(p *core.Program, r *core.Report) {
 	}
 
 	c03Containers(p, r)
+	c05TagHash(p, r, "C03.taghash")
 	checkFactoryFresh(p, r, "C03.fresh", "lang/pack", "CreatePack")
 	c03ZipStatus(p, r)
 	r.Rule("C03.zippure", "compressutil.DoZip/UnZip are stateless (no package-level variable): results never alias reused storage", 2)
@@ -259,6 +261,63 @@ func c03Containers(p *core.Program, r *core.Report) {
 				})
 			}
 			scan(loop.Body, fi, 0)
+			// a stamp that is applied only when the container's value is non-zero leaves the record's own
+			// (possibly different) identity in place: the stamp must not sit under a condition
+			var conditional []string
+			var findGuarded func(body ast.Node, sfi *core.FuncInfo, guarded bool, depth int)
+			findGuarded = func(body ast.Node, sfi *core.FuncInfo, guarded bool, depth int) {
+				var visit func(n ast.Node, g bool)
+				visit = func(n ast.Node, g bool) {
+					switch v := n.(type) {
+					case nil:
+						return
+					case *ast.IfStmt:
+						// a guard that only selects which elements are returned (type test, nil test of the
+						// element) is fine; a guard over the container's identity fields is not
+						cs := stripSpaces(types.ExprString(v.Cond))
+						overIdentity := false
+						for _, f := range want {
+							if strings.Contains(cs, "."+f) {
+								overIdentity = true
+							}
+						}
+						visit(v.Body, g || overIdentity)
+						if v.Else != nil {
+							visit(v.Else, g || overIdentity)
+						}
+						return
+					case *ast.BlockStmt:
+						for _, s := range v.List {
+							visit(s, g)
+						}
+						return
+					case *ast.ExprStmt:
+						if call, ok := v.X.(*ast.CallExpr); ok {
+							if sel, ok := call.Fun.(*ast.SelectorExpr); ok {
+								if f, ok := setters[sel.Sel.Name]; ok && g {
+									conditional = append(conditional, f)
+								}
+							}
+						}
+					case *ast.AssignStmt:
+						for _, l := range v.Lhs {
+							if sel, ok := l.(*ast.SelectorExpr); ok && g {
+								for _, f := range want {
+									if sel.Sel.Name == f {
+										conditional = append(conditional, f)
+									}
+								}
+							}
+						}
+					case *ast.ForStmt:
+						visit(v.Body, g)
+					case *ast.RangeStmt:
+						visit(v.Body, g)
+					}
+				}
+				visit(body, guarded)
+			}
+			findGuarded(loop.Body, fi, false, 0)
 			var missing []string
 			for _, f := range want {
 				if !got[f] {
@@ -266,7 +325,9 @@ func c03Containers(p *core.Program, r *core.Report) {
 				}
 			}
 			c := core.FuncName(fi.Obj)
-			if len(missing) > 0 {
+			if len(conditional) > 0 {
+				r.Viol("C03.containers", c, p.Pos(loop.Pos()), "the container's "+strings.Join(uniq(conditional), ", ")+" is stamped on the inner pack only under a condition on the container's own value: a record that carries a different value keeps it")
+			} else if len(missing) > 0 {
 				r.Viol("C03.containers", c, p.Pos(loop.Pos()), "inner packs are returned without the container's "+strings.Join(missing, ", "))
 			} else {
 				r.OK("C03.containers", c, p.Pos(loop.Pos()), "all four identity fields stamped from the container")
